@@ -153,6 +153,59 @@ def run_joint(case):
     return st, fails, len(g)
 
 
+def cases_shared(tier):
+    """The SAME bag (same chunk objects) feeding k sub-streams, as `mpu_write([bag] * k, ...)` does, with chunks given
+    as bytes or as bytearray (both are `SomeData`): the stream is the bag's content k times over."""
+    alpha = [((5,),), ((14,), (3,)), ((5, 9), (3,)), ((1, 1, 1), (20, 3)), ((9,), (1,), (5, 0, 14))]
+    for parts in alpha:
+        for k in (2, 3):
+            for kind in ("bytearray", "bytes"):
+                for wpc in (1, 2):
+                    for spill in (0, M_SZ + 1, 1 << 30):
+                        for hl, fl in ((0, 0), (3, 0), (3, 2)):
+                            yield (parts, wpc, spill, hl, fl, 1, True), k, kind
+
+
+def run_shared(case):
+    import dask.bag as db  # pylint: disable=import-outside-toplevel
+
+    cfg, k, kind = case
+    parts, wpc, spill, hl, fl, min_part, _ = cfg
+    cfg_k = (tuple(parts) * k, wpc, spill, hl, fl, min_part, True)
+    data = c06.chunk_bytes(parts)
+    body = b"".join(d for row in data for d, _ in row)
+    want = b"\xf0" * hl + body * k + b"\xfe" * fl
+    want_obs = [(len(d), i) for row in data for d, i in row] * k
+    cv = bytearray if kind == "bytearray" else bytes
+    bag = db.Bag({("src", j): [(cv(d), i) for d, i in data[j]] for j in range(len(parts))}, "src", len(parts))
+    w = RecWriter(M_SZ, min_part, c06.max_part_for(cfg_k))
+    hdr = Callback(b"\xf0" * hl) if hl else None
+    ftr = Callback(b"\xfe" * fl) if fl else None
+    out = M.mpu_write([bag] * k, w, mk_header=hdr, mk_footer=ftr, writes_per_chunk=wpc, spill_sz=spill)
+    g = taskgraph.converted(out, [out.key])
+    fails = {}
+
+    def check(x: taskgraph.Exec):
+        dev = [i for i, c in enumerate(x.choices) if c]
+        where = f"order deviations at steps {dev}"
+        if x.error is not None:
+            if not core.in_repo_tb(x.error):
+                raise x.error
+            fails.setdefault(f"dask:shared-bag:exception:{type(x.error).__name__}@{core.raise_site(x.error)}",
+                             f"{type(x.error).__name__}: {x.error}; {where}")
+            return
+        ww = x.ctx["w"]
+        for kk, msg in c06.judge_writes(cfg_k, ww.log, ww.final, want=want):
+            fails.setdefault(f"dask:shared-bag:{kind}:" + kk, f"{msg}; {where}")
+        for who in ("hdr", "ftr"):
+            cb = x.ctx[who]
+            if cb is not None and cb.seen != want_obs:
+                fails.setdefault(f"dask:shared-bag:{kind}:observed:{who}", f"callback saw {cb.seen} want {want_obs}; {where}")
+
+    st = taskgraph.explore(g, dict(w=w, hdr=hdr, ftr=ftr), check, 1)
+    return st, fails, len(g)
+
+
 def cases_many(tier):
     """Partition COUNTS around the sizes at which dask changes how it builds bags (from_sequence groups elements once
     there are more than 100) and around split_every boundaries; one- and two-sub-stream structures."""
@@ -290,7 +343,21 @@ def run(ctx):
             r.fail(k_, f"{n} partitions, substreams={case[1]}, wpc={case[0][1]}, spill={case[0][2]}, hdr={case[0][3]}, ftr={case[0][4]}: {m}")
         return r
 
+    shared = list(cases_shared(ctx.tier))
+
+    def runs(case):
+        st, fails, ntasks = run_shared(case)
+        r = R(outcome=f"shared:k{case[1]}:{case[2]}:tasks{ntasks // 10 * 10}")
+        r.counts = dict(dask_executions=st.executions, dask_tasks_run=st.tasks_run, transitions=st.tasks_run,
+                        dask_distinct_orders=st.distinct_orders, dask_graphs=1)
+        for k_, m in fails.items():
+            r.fail(k_, f"cfg(partitions={case[0][0]}, wpc={case[0][1]}, spill={case[0][2]}, hdr={case[0][3]}, ftr={case[0][4]}, "
+                       f"same bag x{case[1]}, chunks as {case[2]}): {m}")
+        return r
+
     e1.run_slices(ctx, [
+        e1.Slice("dask-shared-bag", lambda: iter(shared), runs,
+                 "one bag (same chunk objects, bytes and bytearray) feeding 2-3 sub-streams; every task order within 1 deviation"),
         e1.Slice("dask-many-partitions", lambda: iter(many), runm,
                  "15..257 (thorough ..300) partitions through the real mpu_write graph: counts around dask's bag-grouping threshold (100) "
                  "and the fold fan-in"),
